@@ -126,8 +126,14 @@ class Bound:
         self.which = "S" if o.fields.get("_sub_indicator", False) is True else "I"
         self.children = []
 
-    def clause(self, st, src, j, old=None):
-        v = SpecEval(self.ex, st, dict(self.env, j=SInt(j) if z3.is_expr(j) else j), old).ev(src)
+    def clause(self, st, src, j, old=None, tight=False):
+        """tight: the clause with the input perturbation bound `xeps` set to 0 (what a computation establishes
+        with respect to the inputs as they are stored at that moment)"""
+        env = self.env
+        if tight and "xeps" in env:
+            env = dict(env)
+            env["xeps"] = 0
+        v = SpecEval(self.ex, st, dict(env, j=SInt(j) if z3.is_expr(j) else j), old).ev(src)
         return vals.zbool(vals.truthy_term(v, st.heap))
 
     def contiguity(self, st, j):
@@ -165,10 +171,15 @@ def bind_spec(ex, st, spec, base_env, inst, role, ghost, parent_env, label_prefi
             env[pname] = o.fields[pname]
         elif pname in ghost:
             env[pname] = SpecEval(ex, st, parent_env).ev(ghost[pname])
+        elif pname == "xeps":
+            env[pname] = 0
         else:
             raise Unsupported(f"no binding for parameter {pname} of {spec.cls}")
     for k, src in spec.lets.items():
-        env[k] = SpecEval(ex, st, env).ev(src)
+        if k in ghost and role != "top":
+            env[k] = SpecEval(ex, st, parent_env).ev(ghost[k])
+        else:
+            env[k] = SpecEval(ex, st, env).ev(src)
     ev = SpecEval(ex, st, env)
     for label, src in spec.extra_pre.items():
         if role == "top" or label.startswith("eps"):
@@ -209,12 +220,13 @@ def helper_effect(ex, st, b, start, whole=False):
     ser.written_now.add(b.N)
     st.heap[b.inst.oid].fields["_active_index"] = concretize_int(start)
     for label, src, _ in b.inv_items():
-        st.assume(b.clause(st, src, s_t))
+        st.assume(b.clause(st, src, s_t, tight=True))
     st.assume(ser.has(b.which, b.N, s_t))
     if whole:
         # everything the helper computes beyond the candle being processed is computed from
         # inputs that do not exist yet: those entries are None (and are overwritten later)
-        st.qassumes.append(QAssume(lambda j, ser=ser, b=b, s_t=s_t: z3.Implies(j > s_t, vals.V.is_vnone(ser.lookup_V(b.N, j))), "helper-future-none"))
+        snap = ser.clone()
+        st.qassumes.append(QAssume(lambda j, ser=snap, b=b, s_t=s_t: z3.Implies(j > s_t, vals.V.is_vnone(ser.lookup_V(b.N, j))), "helper-future-none"))
     for ch in b.children:
         o = st.heap[ch.inst.oid]
         if o.fields.get("_sub_calc_prior", True) is False:
@@ -308,6 +320,8 @@ def run_indicator_task(source, contracts, loops, spec, variant, natives=None, ti
             ser = st.heap[env["c"].oid]
             top = bind_spec(ex, st, spec, env, obj, "top", {}, env)
             env = top.env
+            if not ctx.feasible(st):
+                continue
             ctx.bindings[obj.oid] = top
             bounds = [top]
             # helper graph: specs of the sub / managed indicators, bound to the real instances
@@ -327,29 +341,34 @@ def run_indicator_task(source, contracts, loops, spec, variant, natives=None, ti
                     ctx.bindings[pinst.oid].children.append(sb)
                 bounds.append(sb)
             N = env["N"]
+            # hypotheses are statements about the PRE-state: evaluate them against a frozen snapshot,
+            # never against the state object that the execution goes on mutating
+            pre_st = st.fork()
+            ser_pre = pre_st.heap[env["c"].oid]
             for b in bounds:
                 if b.role == "prior" or mode != "calculate":
                     lim = (lambda j: z3.And(j >= 0, j <= i))
                 else:
                     lim = (lambda j: z3.And(j >= 0, j < i))
                 for label, src, _ in b.inv_items(assume_only=True):
-                    st.qassumes.append(QAssume(lambda j, b=b, src=src, lim=lim: z3.Implies(lim(j), b.clause(st, src, j)),
+                    st.qassumes.append(QAssume(lambda j, b=b, src=src, lim=lim: z3.Implies(lim(j), b.clause(pre_st, src, j)),
                                                f"Inv[{_short(b.N)}]:{label}"))
                 if b.role == "helper":
-                    st.qassumes.append(QAssume(lambda j, b=b, lim=lim: z3.Implies(lim(j), b.contiguity(st, j)), f"inputs[{_short(b.N)}]"))
-                    st.qassumes.append(QAssume(lambda j, b=b: z3.Implies(z3.And(j > i, j < ser.length), vals.V.is_vnone(ser.lookup_V(b.N, j))), f"future-none[{_short(b.N)}]"))
+                    st.qassumes.append(QAssume(lambda j, b=b, lim=lim: z3.Implies(lim(j), b.contiguity(pre_st, j)), f"inputs[{_short(b.N)}]"))
+                    lo_f = i if mode == "calculate" else i + 1
+                    st.qassumes.append(QAssume(lambda j, b=b, lo_f=lo_f: z3.Implies(z3.And(j >= lo_f, j < ser_pre.length), vals.V.is_vnone(ser_pre.lookup_V(b.N, j))), f"future-none[{_short(b.N)}]"))
                 else:
-                    st.qassumes.append(QAssume(lambda j, b=b: z3.Implies(z3.And(j >= 0, j < ser.length), b.contiguity(st, j)), f"inputs[{_short(b.N)}]"))
+                    st.qassumes.append(QAssume(lambda j, b=b: z3.Implies(z3.And(j >= 0, j < ser_pre.length), b.contiguity(pre_st, j)), f"inputs[{_short(b.N)}]"))
             which = top.which
             data_keys = [SpecEval(ex, st, env).ev(h) for h in spec.helpers]
             if mode == "calculate":
                 for kk in [N] + data_keys:
-                    st.qassumes.append(QAssume(lambda j, kk=kk: z3.Implies(z3.And(j >= i, j < ser.length), z3.And(z3.Not(ser.has("I", kk, j)), z3.Not(ser.has("S", kk, j)))), f"absent-from-i[{_short(kk)}]"))
+                    st.qassumes.append(QAssume(lambda j, kk=kk: z3.Implies(z3.And(j >= i, j < ser_pre.length), z3.And(z3.Not(ser_pre.has("I", kk, j)), z3.Not(ser_pre.has("S", kk, j)))), f"absent-from-i[{_short(kk)}]"))
             # every key is written to one of the two per-candle dicts only (no other indicator shares the
             # name: premise of C13); data keys and helper keys live in sub_indicators
             single = [(N, "S" if which == "I" else "I")] + [(kk, "I") for kk in data_keys] + [(b.N, "S" if b.which == "I" else "I") for b in bounds[1:]]
             for kk, other in single:
-                st.qassumes.append(QAssume(lambda j, kk=kk, other=other: z3.Implies(z3.And(j >= 0, j < ser.length), z3.Not(ser.has(other, kk, j))), f"single-dict[{_short(kk)}]"))
+                st.qassumes.append(QAssume(lambda j, kk=kk, other=other: z3.Implies(z3.And(j >= 0, j < ser_pre.length), z3.Not(ser_pre.has(other, kk, j))), f"single-dict[{_short(kk)}]"))
             # frames
             helpers = data_keys + [b.N for b in bounds[1:] if b.role == "helper"]
             ser.read_frame = (0, i)
@@ -381,7 +400,7 @@ def run_indicator_task(source, contracts, loops, spec, variant, natives=None, ti
                         continue
                     pre = "" if b is top else f"helper[{_short(b.N)}]:"
                     for label, src, props in b.inv_items():
-                        ex.ctx.oblige(st1, "inv-preserve", pre + label, b.clause(st1, src, i, old), loop, props=props or None)
+                        ex.ctx.oblige(st1, "inv-preserve", pre + label, b.clause(st1, src, i, old, tight=(b is top)), loop, props=props or None)
                     if b.role == "helper":
                         ex.ctx.oblige(st1, "inv-preserve", pre + "inputs-well-formed", b.contiguity(st1, i), loop)
                         jf = z3.Int(vals_fresh("jf"))
